@@ -97,6 +97,20 @@ func (p *Pool[K, V]) removeEntry(ent *entry[K, V]) {
 		return
 	}
 
+	// the entry may have already been unlinked by Take, Put or Close if they
+	// raced with the expiration timer firing. unlinking it twice would corrupt
+	// the counts of the lists.
+	linked := false
+	for e := local.head; e != nil; e = e.local.next {
+		if e == ent {
+			linked = true
+			break
+		}
+	}
+	if !linked {
+		return
+	}
+
 	local.removeEntry(ent, (*entry[K, V]).localList)
 	p.order.removeEntry(ent, (*entry[K, V]).globalList)
 
